@@ -19,7 +19,7 @@ class ConvertBase:
 
         buffer = target.empty(len(src))
         for to_, from_ in mapping.items():
-            buffer.__setattr__(
-                to_, src.__getattribute__(from_) if isinstance(from_, str) else from_
-            )
+            val = src.__getattribute__(from_) if isinstance(from_, str) else from_
+            # Assign by position: the source rows may carry any row labels
+            buffer.__setattr__(to_, val.to_numpy() if hasattr(val, "to_numpy") else val)
         return buffer
